@@ -297,7 +297,12 @@ def rule_std_includes(ctx, px):
             cond = pyfront.guard_terms(gd)
     if cond is None:
         raise AnalysisError("anchor missing: stdint.h in C get_includes")
-    txt = " ".join(e for e, p in cond if p)
+    def _spelled(e):  # a hoisted local (`needs_stdint = a or b or c`) is spelled as its value
+        try:
+            return ast.unparse(pyfront.subst_locals(f.node, ast.parse(e, mode="eval").body))
+        except SyntaxError:
+            return e
+    txt = " ".join(_spelled(e) for e, p in cond if p)
     for flag, why in (("uses_integer", "integer fields and union tags"),
                       ("uses_boolean_static_array", "bool[N] is stored bit-packed in uint8_t"),
                       ("uses_variable_length_array", "bool[<=N] is stored bit-packed in uint8_t")):
@@ -640,13 +645,24 @@ def rule_include_monotone(ctx, px):
     n = 0
     for modname in ("nunavut.lang.c", "nunavut.lang.cpp"):
         f = px.func(modname, "Language.get_includes")
+
+        def spelled(e, f=f):
+            try:
+                return ast.unparse(pyfront.subst_locals(f.node, ast.parse(e, mode="eval").body))
+            except SyntaxError:
+                return e
         for st, gd in pyfront.walk_guarded(f.node.body):
+            added = []  # header expressions this statement puts into the include container (list or set, literal or call)
             if isinstance(st, ast.Expr) and isinstance(st.value, ast.Call) and isinstance(st.value.func, ast.Attribute) \
-                    and st.value.func.attr in ("append", "extend", "insert") and "include" in ast.unparse(st.value.func.value):
+                    and st.value.func.attr in ("append", "extend", "insert", "add", "update") and "include" in ast.unparse(st.value.func.value):
+                added = [ast.unparse(st.value.args[-1])] if st.value.args else ["?"]
+            elif isinstance(st, (ast.Assign, ast.AnnAssign)) and st.value is not None and isinstance(st.value, (ast.List, ast.Set, ast.Tuple)) \
+                    and "include" in ast.unparse(st.targets[0] if isinstance(st, ast.Assign) else st.target):
+                added = [ast.unparse(e) for e in st.value.elts]
+            for what in added:
                 n += 1
                 terms = pyfront.guard_terms(gd)
-                neg = [e for e, p in terms if not p and "dep_types." in e]
-                what = ast.unparse(st.value.args[0]) if st.value.args else "?"
+                neg = [spelled(e) for e, p in terms if not p and "dep_types." in spelled(e)]
                 ctx.ob(R, f.module.rel, f"{f.short} :: include {what}", not neg,
                        "" if not neg else f"added only when NOT ({' / '.join(neg)}): a type that uses both features loses {what} and its header "
                        "does not compile on its own", st.lineno)
